@@ -177,6 +177,8 @@ def query(sp, name, args):
         return ("red", r[0], "".join(r[1]))
     if name == "cplx":
         typ, size, ua, w, st, ws = args
+        if typ.startswith("h:"):
+            typ = unhex6(typ[2:])       # a type name that is not a plain token ('', ' ', ',', ...)
         ua = dict_tok(ua)
         size = int(size) if size.lstrip("-").isdigit() else size
         r = sp.get_linear_complexity(complexityType=typ, alphabetSize=size, userAlphabet=ua, blobLen=int(w), stepSize=int(st), wordSize=int(ws))
